@@ -367,7 +367,20 @@ func (g *DocGen) Doc() S {
 			}
 			for k, in := range []string{"query", "query", "header", "cookie"} {
 				if g.p(0.45) {
-					ps = append(ps, g.Parameter(in, fmt.Sprintf("%s%d", in[:1], k)))
+					name := fmt.Sprintf("%s%d", in[:1], k)
+					if g.Unusual && g.p(0.35) {
+						// legal names that are not identifiers (regexp and URL metacharacters, dots, brackets)
+						switch in {
+						case "query":
+							name = g.pick("sort[]", "tags[", "(draft", "a.b", "$top", "a|b", "x*y", "q+", "k y", "f[0]", "\\d", "^q", "q?")
+						case "header":
+							name = g.pick("X-A.b", "x_y", "X-$", "X-a|b", "X-(", "X-*")
+						case "cookie":
+							name = g.pick("c.k", "c$", "c[", "c(")
+						}
+						name += fmt.Sprint(k)
+					}
+					ps = append(ps, g.Parameter(in, name))
 				}
 			}
 			if len(ps) > 0 {
